@@ -83,6 +83,8 @@ class Scheduler:
         self.fired[kind] = self.fired.get(kind, 0) + k
 
     def current_mode(self):
+        if self.script is not None:
+            return self.after           # only reached once the script is exhausted
         if self.budget is not None and self.n > self.budget:
             return self.after
         return self.mode
@@ -101,9 +103,11 @@ class Scheduler:
             v = self.script[self.script_pos]
             self.script_pos += 1
             return v
+        # script exhausted: the tail is decided by the run's own scheduler in its
+        # closing mode (cooperative where an advisor exists), so truncated runs end
         self.diverged = True
         self.script_pos += 1
-        return ('default',)
+        return None
 
     def digest(self):
         return hashlib.sha256(repr(self.log).encode()).hexdigest()[:16]
